@@ -51,6 +51,11 @@ def _(c): c.inline()
 def _(c): c.inline()
 
 
+def _gen_show(rnd):
+    s = gen.Session(rnd, nconn=rnd.randint(1, 2), nmsg=rnd.randint(1, 8))
+    return (rnd.choice(s.controller.all_messages), s.output)
+
+
 @contract('core.wl.message.Message.show')
 def _(c):
     c.prop('C06', 'C11', 'C16')
@@ -64,6 +69,11 @@ def _(c):
     c.ghost('retag_last(1, self)', at='exit')
     c.effect('emit_kind(1, self)')
     c.epoch_preserving()
+    # the text of the line (C16: the time column is the message's relative time with four decimals; C14: the connection label follows it): the format
+    # function is uninterpreted in the proof, so this clause is native-only (bounded stand-in)
+    c.ensures('out_text()[old(len(out_text()))].rstrip("\\n") == "{:7.4f}".format(self.timestamp) + " " + ("" if self.obj.connection is None else self.obj.connection.name()) + ": " + str(self)',
+              'line_is_time_label_and_message', native_only=True)
+    c.native_gen(_gen_show)
 
 
 @contract('frontends.tui.controller.Controller._show_message')
